@@ -2,29 +2,25 @@ import Esp.Lemmas.ReconnectStop
 /-!
 # Reconnect manager: the client is only ever inside the call the in-flight task made
 
-`CliOk`: a task suspended in `start_connection` ⇒ the client is `starting`; in `finish_connection` ⇒
-`finishing`.  Hence while a session is `live` no attempt is in flight.  Whenever the lock is free
-there is no in-flight task at all (`LockInv`), so only the states that keep the lock matter.
+`CliOk`: a task suspended in `start_connection` ⇒ the client is `starting`; in `finish_connection` ⇒ `finishing`.  Hence while a session is `live` no task is inside a client call.  Whenever the lock is free nobody is suspended under it at all (`LockInv`), so only the states that keep the lock matter.
 -/
 namespace Esp.Reconnect
 
-def CliOk (s : St) : Prop :=
-  ∀ (i : Nat) (t : Task), s.tasks[i]? = some t → (t.pc = .inStart → s.cli = .starting) ∧ (t.pc = .inFinish → s.cli = .finishing)
+/-- the client phase that goes with a suspension point of the connect task -/
+def cliOf : Pc → Option Cli
+  | .inStart => some .starting | .inFinish => some .finishing
+  | _ => none
 
-theorem getElem?_setTask {s : St} {tid : Nat} {f : Task → Task} {i : Nat} {t : Task}
-    (h : (setTask s tid f).tasks[i]? = some t) : ∃ t0, s.tasks[i]? = some t0 ∧ t = (if tid = i then f t0 else t0) := by
-  simp only [setTask] at h
-  rw [List.getElem?_modify] at h
-  cases h0 : s.tasks[i]? with
-  | none => simp [h0] at h
-  | some t0 =>
-    simp only [h0, Option.map_eq_map, Option.map_some, Option.some.injEq] at h
-    exact ⟨t0, rfl, h.symm⟩
+theorem cliOf_inflight (pc : Pc) (c : Cli) (h : cliOf pc = some c) : inflightPc pc = true := by
+  cases pc <;> simp_all [cliOf, inflightPc]
+
+def CliOk (s : St) : Prop :=
+  ∀ (i : Nat) (t : Task) (c : Cli), s.tasks[i]? = some t → cliOf t.pc = some c → s.cli = c
 
 theorem cliOk_of_unlocked (s : St) (h : LockInv s) (hl : s.locked = false) : CliOk s := by
-  intro i t ht
-  have := noInflight_of_unlocked s h hl i t ht
-  constructor <;> intro hp <;> simp [hp, inflightPc] at this
+  intro i t c ht hc
+  have := h.a i t ht (cliOf_inflight _ _ hc)
+  simp [hl] at this
 
 section proj
 variable (s : St)
@@ -34,7 +30,6 @@ variable (s : St)
 @[simp] theorem cli_setState (st : RState) : (setState s st).cli = s.cli := rfl
 @[simp] theorem cli_cancelTimer : (cancelTimer s).cli = s.cli := rfl
 @[simp] theorem cli_removeWaiter (tid : Nat) : (removeWaiter s tid).cli = s.cli := rfl
-@[simp] theorem cli_handleFailure (k : ErrK) : (handleFailure s k).cli = s.cli := rfl
 @[simp] theorem cli_wakeUpFirst : (wakeUpFirst s).cli = s.cli := by unfold wakeUpFirst; split <;> rfl
 @[simp] theorem cli_release : (release s).cli = s.cli := by unfold release wakeUpFirst; dsimp only; split <;> rfl
 @[simp] theorem cli_stopZc : (stopZc s).cli = s.cli := by unfold stopZc; split <;> rfl
@@ -62,15 +57,45 @@ theorem cli_cancelConnect (s : St) : (cancelConnect s).cli = s.cli := by
   unfold cancelConnect; rw [cli_cancelConnectTask]; rfl
 
 theorem CliOk.sim {s s' : St} (h : CliOk s) (hs : Sim s s') (hc : s'.cli = s.cli) : CliOk s' := by
-  intro i t' hi
+  intro i t' c hi hcl
   obtain ⟨t0, h0, hp, _⟩ := hs.t i t' hi
-  rw [hc, ← hp]; exact h i t0 h0
+  rw [hc]; exact h i t0 c h0 (by rw [hp]; exact hcl)
 
 theorem CliOk.congr {s s' : St} (h : CliOk s) (ht : s'.tasks = s.tasks) (hc : s'.cli = s.cli) : CliOk s' := by
-  intro i t hi; rw [ht] at hi; rw [hc]; exact h i t hi
+  intro i t c hi; rw [ht] at hi; rw [hc]; exact h i t c hi
 
 theorem locked_afterFail (s : St) (tid : Nat) : (afterFail s tid).locked = false := by
   unfold afterFail; dsimp only; simp
+
+theorem locked_failEnd (s : St) (k : ErrK) (tid : Nat) : (failEnd s k tid).locked = false := by
+  unfold failEnd; exact locked_afterFail _ _
+
+/-- the task at `tid` is the only one that may be suspended under the lock; it is set to `pc` and the client to what goes
+with `pc` -/
+theorem cliOk_setPc (s : St) (tid : Nat) (f : Task → Task) (h : HeldBy s tid)
+    (hf : ∀ t c, cliOf (f t).pc = some c → s.cli = c) : CliOk (setTask s tid f) := by
+  intro i t' c hi hc
+  obtain ⟨t0, h0, rfl⟩ := getElem?_setTask hi
+  by_cases hti : tid = i
+  · rw [if_pos hti] at hc; simpa using hf t0 c hc
+  · rw [if_neg hti] at hc
+    have := h.n i t0 (Ne.symm hti) h0
+    rw [cliOf_inflight _ _ hc] at this; cases this
+
+theorem failEnd_cli (s : St) (k : ErrK) (tid : Nat) (h : HeldBy s tid) : CliOk (failEnd s k tid) :=
+  cliOk_of_unlocked _ (failEnd_inv s k tid h) (locked_failEnd s k tid)
+
+theorem failBegin_cli (s : St) (k : ErrK) (tid : Nat) (h : HeldBy s tid) : CliOk (failBegin s k tid) := by
+  have hinv := failBegin_inv s k tid h
+  unfold failBegin at hinv ⊢
+  dsimp only at hinv ⊢
+  split
+  · refine cliOk_setPc _ tid _ (h.congr rfl rfl rfl) ?_
+    intro t c hcl
+    simp [cliOf] at hcl
+  · rename_i hsusp
+    rw [if_neg hsusp] at hinv
+    exact cliOk_of_unlocked _ hinv (locked_failEnd _ _ _)
 
 theorem connectLocked_cli (s : St) (tid : Nat) (h : HeldBy s tid) : CliOk (connectLocked s tid) := by
   have hinv := connectLocked_inv s tid h
@@ -79,39 +104,32 @@ theorem connectLocked_cli (s : St) (tid : Nat) (h : HeldBy s tid) : CliOk (conne
   · rename_i hc
     rw [if_pos hc] at hinv
     exact cliOk_of_unlocked _ hinv (by simp)
-  · rename_i hc
-    rw [if_neg hc] at hinv
-    dsimp only at hinv ⊢
+  · dsimp only
     split
-    · rename_i hl
-      rw [if_pos hl] at hinv
-      exact cliOk_of_unlocked _ hinv (locked_afterFail _ _)
-    · intro i t hi
-      obtain ⟨t0, h0, rfl⟩ := getElem?_setTask hi
-      split
-      · simp [setTask]
-      · rename_i hne
-        have := h.n i t0 (Ne.symm hne) h0
-        constructor <;> intro hp <;> simp [hp, inflightPc] at this
+    · exact failBegin_cli _ _ _ (h.congr (by simp) (by simp) (by simp))
+    · refine cliOk_setPc _ tid _ (h.congr rfl rfl rfl) ?_
+      intro t c hcl
+      simp only [cliOf, Option.some.injEq] at hcl
+      rw [← hcl]
 
 theorem acquire_cli (s : St) (tid : Nat) (h : CliOk s) : CliOk (acquire s tid).1 := by
   unfold acquire
   split
   · exact h.congr rfl rfl
-  · intro i t hi
+  · intro i t c hi hc
     obtain ⟨t0, h0, rfl⟩ := getElem?_setTask hi
-    split
-    · simp [setTask]
-    · simpa [setTask] using h i t0 h0
+    by_cases hti : tid = i
+    · rw [if_pos hti] at hc; simp [cliOf] at hc
+    · rw [if_neg hti] at hc; simpa [setTask] using h i t0 c h0 hc
 
 theorem append_cli (s : St) (k : Kind) (h : CliOk s) : CliOk { s with tasks := s.tasks ++ [{ kind := k, pc := .running }] } := by
-  intro i t hi
+  intro i t c hi hc
   simp only at hi
   rcases Nat.lt_or_ge i s.tasks.length with hlt | hge
-  · rw [List.getElem?_append_left hlt] at hi; exact h i t hi
+  · rw [List.getElem?_append_left hlt] at hi; exact h i t c hi hc
   · rw [List.getElem?_append_right hge] at hi
     cases hj : i - s.tasks.length with
-    | zero => simp [hj] at hi; rw [← hi]; simp
+    | zero => simp [hj] at hi; rw [← hi] at hc; simp [cliOf] at hc
     | succ j => simp [hj] at hi
 
 theorem spawnConnect_cli (s : St) (hl : LockInv s) (h : CliOk s) : CliOk (spawnConnect s) := by
@@ -146,14 +164,23 @@ theorem scheduleConnect_cli (s : St) (d : Nat) (hl : LockInv s) (h : CliOk s) : 
   · exact callConnectOnce_cli s hl h
   · exact h.congr rfl rfl
 
-theorem discLocked_cli (s : St) (tid : Nat) (e : Bool) (h : HeldBy s tid) : CliOk (discLocked s tid e) := by
-  unfold discLocked
+theorem discEnd_cli (s : St) (tid : Nat) (e : Bool) (h : HeldBy s tid) : CliOk (discEnd s tid e) := by
+  unfold discEnd
   dsimp only
-  have h1 := release_finish _ tid (h.congr (s' := emit (setState s .disconnected) (.onDisconnect e)) rfl rfl rfl)
+  have h1 := release_finish _ tid h
   have c1 := cliOk_of_unlocked _ h1 (by simp)
   split
   · exact c1
   · exact scheduleConnect_cli _ _ h1 c1
+
+theorem discLocked_cli (s : St) (tid : Nat) (e : Bool) (h : HeldBy s tid) : CliOk (discLocked s tid e) := by
+  unfold discLocked
+  dsimp only
+  have h1 : HeldBy (emit (setState s .disconnected) (.onDisconnect e)) tid := h.congr rfl rfl rfl
+  split
+  · refine cliOk_setPc _ tid _ h1 ?_
+    intro t c hcl; simp [cliOf] at hcl
+  · exact discEnd_cli _ _ _ h1
 
 theorem startLocked_cli (s : St) (tid : Nat) (h : HeldBy s tid) : CliOk (startLocked s tid) := by
   have hinv := startLocked_inv s tid h
@@ -191,11 +218,11 @@ theorem spawn_cli (s : St) (k : Kind) (hl : LockInv s) (h : CliOk s) : CliOk (sp
     exact lockedBody_cli _ _ k hh
 
 theorem finish_cli (s : St) (tid : Nat) (h : CliOk s) : CliOk (finish s tid) := by
-  intro i t hi
+  intro i t c hi hc
   obtain ⟨t0, h0, rfl⟩ := getElem?_setTask hi
-  split
-  · simp
-  · simpa [finish] using h i t0 h0
+  by_cases hti : tid = i
+  · rw [if_pos hti] at hc; simp [cliOf] at hc
+  · rw [if_neg hti] at hc; simpa [finish] using h i t0 c h0 hc
 
 theorem wakeTask_cli (s : St) (tid : Nat) (t : Task) (hl : LockInv s) (h : CliOk s) (ht : s.tasks[tid]? = some t) :
     CliOk (wakeTask s tid t) := by
@@ -219,39 +246,58 @@ theorem wakeTask_cli (s : St) (tid : Nat) (t : Task) (hl : LockInv s) (h : CliOk
     rename_i hpc
     have hh := held_of_inflight s tid t hl ht (by simp [hpc, inflightPc])
     split
-    · rename_i hm
-      simp only [hpc, hm, ↓reduceIte] at hinv
-      exact cliOk_of_unlocked _ hinv (locked_afterFail _ _)
-    · rename_i hm
-      split
-      · -- start ok: the task moves into finish_connection, the client with it
-        intro i t' hi
-        obtain ⟨t0, h0, rfl⟩ := getElem?_setTask hi
-        split
-        · simp [setTask]
-        · rename_i hne
-          have h0' : s.tasks[i]? = some t0 := by simpa using h0
-          have := hh.n i t0 (Ne.symm hne) h0'
-          constructor <;> intro hp <;> simp [hp, inflightPc] at this
-      · rename_i k hr
-        simp only [hpc, hm, hr] at hinv
-        exact cliOk_of_unlocked _ hinv (locked_afterFail _ _)
+    · exact failBegin_cli _ _ _ (hh.congr (s' := { s with cli := .idle }) rfl rfl rfl)
+    · split
+      · refine cliOk_setPc _ tid _ (hh.congr (by simp) (by simp) (by simp)) ?_
+        intro t' c hcl
+        simp only [cliOf, Option.some.injEq] at hcl
+        rw [← hcl]; simp
+      · exact failBegin_cli _ _ _ (hh.congr (s' := { s with cli := .idle }) rfl rfl rfl)
       · exact h
   · -- inFinish
     rename_i hpc
+    have hh := held_of_inflight s tid t hl ht (by simp [hpc, inflightPc])
     split
-    · rename_i hm
-      simp only [hpc, hm, ↓reduceIte] at hinv
-      exact cliOk_of_unlocked _ hinv (locked_afterFail _ _)
-    · rename_i hm
-      split
-      · rename_i hr
-        simp only [hpc, hm, hr] at hinv
-        exact cliOk_of_unlocked _ hinv (by simp)
-      · rename_i k hr
-        simp only [hpc, hm, hr] at hinv
-        exact cliOk_of_unlocked _ hinv (locked_afterFail _ _)
+    · exact failBegin_cli _ _ _ (hh.congr (s' := { s with cli := .idle }) rfl rfl rfl)
+    · split
+      · dsimp only
+        have h1 : HeldBy (emit (setState { s with cli := .live, tries := 0 } .ready) .onConnect) tid := hh.congr rfl rfl rfl
+        split
+        · refine cliOk_setPc _ tid _ h1 ?_
+          intro t' c hcl
+          simp [cliOf] at hcl
+        · exact cliOk_of_unlocked _ (release_finish _ _ h1) (by simp)
+      · exact failBegin_cli _ _ _ (hh.congr (s' := { s with cli := .idle }) rfl rfl rfl)
       · exact h
+  · -- inOnConnect
+    rename_i hpc
+    have hh := held_of_inflight s tid t hl ht (by simp [hpc, inflightPc])
+    split
+    · exact cliOk_of_unlocked _ (release_finish _ _ hh) (by simp)
+    · exact h
+  · -- inOnError
+    rename_i k hpc
+    have hh := held_of_inflight s tid t hl ht (by simp [hpc, inflightPc])
+    split
+    · exact cliOk_of_unlocked _ (release_finish _ _ hh) (by simp)
+    · split
+      · exact failEnd_cli _ _ _ hh
+      · exact h
+  · -- inOnDisc
+    rename_i hpc
+    have hh := held_of_inflight s tid t hl ht (by simp [hpc, inflightPc])
+    split
+    · split
+      · exact discEnd_cli _ _ _ hh
+      · exact h
+    · exact h
+
+theorem setResult_cli (s : St) (tid : Nat) (r : Res) (h : CliOk s) : CliOk (setTask s tid fun t => { t with result := some r }) := by
+  intro i t c hi hc
+  obtain ⟨t0, h0, rfl⟩ := getElem?_setTask hi
+  by_cases hti : tid = i
+  · rw [if_pos hti] at hc; simpa [setTask] using h i t0 c h0 hc
+  · rw [if_neg hti] at hc; simpa [setTask] using h i t0 c h0 hc
 
 theorem step_cli (s : St) (e : Ev) (hl : LockInv s) (h : CliOk s) : CliOk (step s e) := by
   cases e with
@@ -265,23 +311,25 @@ theorem step_cli (s : St) (e : Ev) (hl : LockInv s) (h : CliOk s) : CliOk (step 
     simp only [step]
     unfold complete
     split
-    · rename_i tid _
-      intro i t hi
-      have hi' : (setTask s tid fun t => { t with result := some r }).tasks[i]? = some t := hi
-      obtain ⟨t0, h0, rfl⟩ := getElem?_setTask hi'
-      split <;> simpa [setTask] using h i t0 h0
+    · exact (setResult_cli s _ r h).congr rfl rfl
+    · exact h
+  | cbDone =>
+    simp only [step]
+    unfold completeCb
+    split
+    · exact (setResult_cli s _ .ok h).congr rfl rfl
     · exact h
   | sessionEnd e =>
     simp only [step]
     split
     · rename_i hlive
-      -- a live session: nobody is in flight (the client would be starting / finishing)
+      -- a live session: nobody is inside a client call (the client would be starting / finishing)
       have hn : CliOk { s with cli := .idle } := by
-        intro i t hi
-        have := h i t hi
-        constructor <;> intro hp
-        · have := this.1 hp; rw [hlive] at this; cases this
-        · have := this.2 hp; rw [hlive] at this; cases this
+        intro i t c hi hc
+        have := h i t c hi hc
+        rw [hlive] at this
+        subst this
+        cases hp : t.pc <;> simp [cliOf, hp] at hc
       exact spawn_cli _ _ (hl.congr rfl rfl rfl) hn
     · exact h
   | zc m =>
@@ -318,7 +366,7 @@ theorem run_cli (s : St) (evs : List Ev) (hl : LockInv s) (h : CliOk s) : CliOk 
   | nil => exact h
   | cons e es ih => exact ih _ (step_inv s e hl) (step_cli s e hl h)
 
-theorem init_cli (b : Bool) : CliOk (init b) := by
-  intro i t hi; simp [init] at hi
+theorem init_cli (b : Bool) (c e d : Bool := false) : CliOk (init b c e d) := by
+  intro i t c' hi; simp [init] at hi
 
 end Esp.Reconnect
